@@ -29,9 +29,12 @@ CIG = "5=1X4="
 TAGS = [("tp:A:", "P"), ("cg:Z:", CIG), ("NM:i:", "1")]
 
 
+GFA_ORDER = [None]  # S-line order of the model graph (None = SO order within each contig)
+
+
 def gfa_lines(order=None):
     out = []
-    for nid in (order or list(LAY)):
+    for nid in (order or GFA_ORDER[0] or list(LAY)):
         sn, so, ln, sr = LAY[nid]
         out.append("S\t%s\t*\tLN:i:%d\tSN:Z:%s\tSO:i:%d\tSR:i:%d\n" % (nid, ln, sn, so, sr))
     for u, du, v, dv in LINKS:
